@@ -47,6 +47,32 @@ impl DecoderWork {
 }
 
 // ======================================================================
+// DecoderWork - VERIFICATION HOOKS
+
+#[cfg(feature = "verif-hooks")]
+impl DecoderWork {
+    /// Digest of the complete concrete state (configuration, counters, bitmap and working memory).
+    #[doc(hidden)]
+    pub fn verif_digest(&self) -> u64 {
+        let mut digest = crate::verif_hooks::Digest::new();
+        digest.usize(self.original_count);
+        digest.usize(self.recovery_count);
+        digest.usize(self.shard_bytes);
+        digest.usize(self.original_base_pos);
+        digest.usize(self.recovery_base_pos);
+        digest.usize(self.original_received_count);
+        digest.usize(self.recovery_received_count);
+        // Set bits only, the bitmap "may contain extra zero bits".
+        for pos in self.received.ones() {
+            digest.usize(pos);
+        }
+        digest.usize(usize::MAX);
+        self.shards.verif_digest(&mut digest);
+        digest.finish()
+    }
+}
+
+// ======================================================================
 // DecoderWork - IMPL Default
 
 impl Default for DecoderWork {
